@@ -1010,6 +1010,10 @@ func checkEncode(c *core.Ctx, t *tree) {
 	if !ok {
 		return
 	}
+	// the streaming encoder (variant.Builder) on the same value
+	if !checkBuilder(c, t, meta, val, rp) {
+		return
+	}
 	// Marshal / Unmarshal of the Go value
 	if t.native() {
 		func() {
@@ -2282,23 +2286,8 @@ func runC19(c *core.Ctx) {
 		}
 	}
 
-	// larger thresholds on the implementation alone (model lists of 16M bytes are too slow)
-	if !c.Quick() {
-		for _, target := range []int{1<<24 - 1, 1 << 24, 1<<24 + 1} {
-			d := make([]byte, target-5)
-			t := &tree{Kind: '[', Elems: []*tree{{Kind: 'b', D: d}}}
-			meta, val, err := goEncode(t)
-			if err != nil {
-				c.Violation("encode-error", err.Error(), map[string]any{"mode": "big", "payload": target})
-				continue
-			}
-			got, err := goDecode(meta, val)
-			if err != nil || got.Kind != '[' || len(got.Elems) != 1 || !bytes.Equal(got.Elems[0].D, d) {
-				c.Violation("decode-of-encode-differs", fmt.Sprintf("array with a payload of %d bytes does not decode back (%v)", target, err), map[string]any{"mode": "big", "payload": target})
-			}
-			c.Case("encode/payload-2^24", fmt.Sprint(target), true)
-		}
-	}
+	// every use of offsetSizeCode below / at / above 0xFF, 0xFFFF, 0xFFFFFF (bounds.go)
+	runBigCases(c)
 
 	// files
 	nFiles := c.N(400, 10000)
@@ -2399,6 +2388,22 @@ func replayC19(c *core.Ctx, raw json.RawMessage) {
 		}
 		checkFile(c, &fc)
 		c.Case("replay/file", string(raw), true)
+	case "big":
+		var bc bigCase
+		if err := json.Unmarshal(raw, &bc); err != nil {
+			c.Note("unreadable big case: %v", err)
+			return
+		}
+		checkBig(c, &bc)
+		c.Case("replay/big", string(raw), true)
+	case "nested":
+		var nc nestCase
+		if err := json.Unmarshal(raw, &nc); err != nil {
+			c.Note("unreadable nested case: %v", err)
+			return
+		}
+		checkNested(c, &nc)
+		c.Case("replay/nested", string(raw), true)
 	default:
 		c.Note("replay mode %q is not replayable; rerun the check with the recorded seed", head.Mode)
 	}
